@@ -18,32 +18,72 @@ def rule_writer_wellformed(chk, prog):
         if f.decl:
             continue
         f.build()
-        cks = [c for c in f.calls() if norm_callee(c.callee) in ("update_checksum",)]
-        if not cks:
+        pass
+    # the function that writes the checksum field: it calls tar_compute_checksum on the header it was given.  Functions
+    # that end the filling of a header they were given with it are finishers themselves (their callers inherit the duty).
+    finishers = {}
+    for f in unit.functions.values():
+        if f.decl:
             continue
-        chk.analysed(f)
-        for c in cks:
-            n += 1
-            hdr = strip_casts(resolve_ptr(prog, c.ops[0], f.unit)[0])
-            later = []
-            for i in f.insts():
-                if i is c or not (f.inst_dominates(c, i) or f.reaches(c.bb, i.bb)) or i.bb is c.bb and i.pos < c.pos:
+        for c in f.build().calls():
+            if norm_callee(c.callee) == "tar_compute_checksum":
+                b = strip_casts(resolve_ptr(prog, c.ops[0], f.unit)[0])
+                if b.is_arg:
+                    finishers[f] = b.idx
+    if not finishers:
+        chk.broke("no function of write_header.c computes the header checksum")
+    MODS = ("memcpy", "memset", "sprintf", "snprintf", "strcpy", "strncpy")
+    writers = set()
+    for f in unit.functions.values():
+        if not f.decl and f not in finishers and f.internal and f.params and f.params[0].ty == "i8*":
+            if any(i.op == "store" or (i.op == "call" and norm_callee(i.callee) in MODS) for i in f.build().insts()):
+                writers.add(f.name)           # write_number & co: fill a field they are handed
+    changed = True
+    done = set()
+    while changed:
+        changed = False
+        for f in unit.functions.values():
+            if f.decl or f in done:
+                continue
+            f.build()
+            cks = [(c, finishers[g]) for c in f.calls() if c.callee for g in [prog.fn(c.callee, f.unit)]
+                   if g in finishers and g is not f]
+            if not cks:
+                continue
+            done.add(f)
+            chk.analysed(f)
+            for (c, k) in cks:
+                n += 1
+                hdr = strip_casts(resolve_ptr(prog, c.ops[k], f.unit)[0])
+                later = []
+                for i in f.insts():
+                    if i is c or not (f.inst_dominates(c, i) or f.reaches(c.bb, i.bb)) or i.bb is c.bb and i.pos < c.pos:
+                        continue
+                    if i.op == "store" and strip_casts(resolve_ptr(prog, i.ops[1], f.unit)[0]) is hdr:
+                        later.append(i)
+                    elif i.op == "call" and (norm_callee(i.callee) in MODS or norm_callee(i.callee) in writers) and \
+                            i.ops and strip_casts(resolve_ptr(prog, i.ops[0], f.unit)[0]) is hdr:
+                        later.append(i)
+                inst = "%s:checksum-last" % f.name
+                if hdr.is_arg:
+                    # a helper that finishes a header it was given: nothing after the checksum here, the rest is the callers'
+                    if not later:
+                        chk.ok("K11-tarhdr", inst, c, "the checksum is the last modification this helper makes to the header it was given")
+                        if f not in finishers:
+                            finishers[f] = hdr.idx
+                            changed = True
+                    else:
+                        chk.violation("K11-tarhdr", inst, later[0], "the tar header is modified after its checksum was computed: other tar "
+                                      "implementations reject the entry")
                     continue
-                if i.op == "store" and strip_casts(resolve_ptr(prog, i.ops[1], f.unit)[0]) is hdr:
-                    later.append(i)
-                elif i.op == "call" and norm_callee(i.callee) in ("memcpy", "memset", "sprintf", "snprintf", "write_number",
-                                                                   "write_number_signed", "strcpy", "strncpy") and \
-                        i.ops and strip_casts(resolve_ptr(prog, i.ops[0], f.unit)[0]) is hdr:
-                    later.append(i)
-            # the append of the header must follow
-            outs = [x for x in f.calls() if slot_call(x) == ("struct.sqfs_ostream_t", "append") and
-                    strip_casts(resolve_ptr(prog, x.ops[1], f.unit)[0]) is hdr]
-            inst = "%s:checksum-last" % f.name
-            if not later and outs and all(f.inst_dominates(c, o) for o in outs):
-                chk.ok("K11-tarhdr", inst, c, "the checksum is the last modification of the header before it is appended")
-            else:
-                chk.violation("K11-tarhdr", inst, (later or [c])[0], "the tar header is modified after its checksum was computed (or "
-                              "appended before it): other tar implementations reject the entry")
+                # the append of the header must follow
+                outs = [x for x in f.calls() if slot_call(x) == ("struct.sqfs_ostream_t", "append") and
+                        strip_casts(resolve_ptr(prog, x.ops[1], f.unit)[0]) is hdr]
+                if not later and outs and all(f.inst_dominates(c, o) for o in outs):
+                    chk.ok("K11-tarhdr", inst, c, "the checksum is the last modification of the header before it is appended")
+                else:
+                    chk.violation("K11-tarhdr", inst, (later or [c])[0], "the tar header is modified after its checksum was computed (or "
+                                  "appended before it): other tar implementations reject the entry")
     if n == 0:
         chk.broke("no checksum update found in write_header.c")
     # sqfs2tar main: terminate_archive and flush succeed before EXIT_SUCCESS
@@ -496,9 +536,13 @@ def rule_pax_len(chk, prog):
                                     if cnd.is_inst and cnd.op == "icmp" and cnd.pred in ("eq", "ne"):
                                         a0, a1 = strip_casts(cnd.ops[0]), strip_casts(cnd.ops[1])
                                         vals = [a0, a1]
-                                        if any(v2.is_inst and v2.op == "phi" and v2.bb is h for v2 in vals) and \
-                                                any(v2.is_inst and v2.op == "call" for v2 in vals):
-                                            fix = True
+                                        # "until the new value equals the previous one": a header phi compared with the
+                                        # value that is fed back into it (a call result or something computed in place)
+                                        for (P_, V_) in ((a0, a1), (a1, a0)):
+                                            if P_.is_inst and P_.op == "phi" and P_.bb is h and not V_.is_const:
+                                                back = [strip_casts(o) for o, pr in zip(P_.ops, P_.x["inc"]) if pr in body]
+                                                if back and all(o is V_ for o in back):
+                                                    fix = True
             inst = "%s:record-length" % f.name
             if fix:
                 chk.ok("K13-paxlen", inst, c, "the length field is found by iterating until its own digit count is stable")
